@@ -75,11 +75,11 @@ def negIntF32 (p : Parts) : Bool :=
     3 bits, so the ≤ 1 unit lost becomes ≤ 8), scaled by the cached `10^-230` alone (the one cached power with
     `8·mant/2^64 + frac > 8.5`), accepted by `error_is_accurate` although the true error can exceed the 9 units booked -/
 def moderateTruncated (p : Parts) : Bool :=
-  match deCall p with
+  match deCall false p with
   | .truncated integer fraction e =>
     let fraction := trimTrailingZeros fraction
     let (m, t) := truncatedMantissa (integer ++ fraction) 0
-    t > 0 && m < 2 ^ 61 && mantissaExponent e fraction.length t == -230 && pathOf false (deCall p) == .moderate
+    t > 0 && m < 2 ^ 61 && mantissaExponent e fraction.length t == -230 && pathOf false (deCall false p) == .moderate
   | _ => false
 
 def prevBits (s : String) : String :=
